@@ -47,6 +47,7 @@ def cases(tier):
         for enc in ('str', 'sym', 'none'):
             cs.append(('get_data', T, c, enc, False))
         cs.append(('get_data', T, c, 'str', True))
+        cs.append(('get_data-twice', T, c))
         cs.append(('all', T, c))
     for n in (0, 1, 2): cs.append(('one', n))
     cs.append(('all-get',))
@@ -112,6 +113,7 @@ def run(it, st, case):
     if kind == 'map': return run_map(it, st, case[1], case[2], c)
     if kind == 'map-abs': return run_map_abs(it, st, case[1], case[2])
     if kind == 'get_data': return run_get_data(it, st, *case[1:])
+    if kind == 'get_data-twice': return run_get_data_twice(it, st, case[1], case[2])
     if kind == 'all': return run_all(it, st, case[1], case[2])
     if kind == 'one': return run_one(it, st, case[1])
     if kind == 'all-get': return run_all_get(it, st, c)
@@ -199,6 +201,30 @@ def none_configured_types(it):
                     if isinstance(k, ast.Constant) and isinstance(k.value, str) and isinstance(v, ast.Constant) and v.value is None: out.add(k.value)
         _NONE_TYPES.append(out)
     return _NONE_TYPES[0]
+def run_get_data_twice(it, st, T, c):
+    """two reads of the same Sid with different encoders through one getter: each answer is the fresh answer, and the first record is not changed by the second call"""
+    x, vals = C.mk_concrete(it, T)
+    fs, ents = fs_setup(it, st, [x], c)
+    gp = it.module('spil.sid.pathops.getter_paths'); G = gp.ns['GetFromPaths']
+    g = PObj(G); g.attrs['config'] = c; g.attrs['finder'] = None
+    e1, spec1 = encoder(it, st, 'str'); e2, spec2 = encoder(it, st, 'none')
+    st.inputs['type'] = T
+    _, ps, dp, D = ents[0]
+    name = 'C16:GetFromPaths.get_data[two calls]'
+    try:
+        d1 = it.call(it.getattr(g, 'get_data'), [x], {'sid_encode': e1})
+        first = [(k, v) for k, v in d1.items] if isinstance(d1, PDict) else None
+        d2 = it.call(it.getattr(g, 'get_data'), [x], {'sid_encode': e2})
+    except Raised as e:
+        st.oblige(f'{name}:raises-nothing', False, ('C16',), info={'exception': V.exc_name(e)}); st.observed = {}; return 'ok'
+    st.observed = {}
+    if ps is None:
+        st.oblige(f'{name}:a-sid-without-path-has-no-data', isinstance(d2, PDict) and not d2.items, ('C16',)); return 'ok'
+    expect_record(it, st, f'{name}:the-second-answer-is-the-fresh-answer-of-its-own-encoder', d2, D.items, spec2(x), None)
+    same = isinstance(d1, PDict) and first is not None and len(d1.items) == len(first) and all(k1 is k2 and v1 is v2 for (k1, v1), (k2, v2) in zip(d1.items, first))
+    st.oblige(f'{name}:the-first-record-is-not-changed-by-the-second-call', same and d1 is not d2, ('C16', 'C14'))
+    return 'ok'
+
 def run_all(it, st, T, c):
     x, vals = C.mk_concrete(it, T)
     fs, ents = fs_setup(it, st, [x], c)
